@@ -224,6 +224,9 @@ class LogConfig(object):
         for i in range(next_to_add, len(self.variables)):
             var = self.variables[i]
             if (var.is_toc_variable() is False):  # Memory location
+                if pk.available_data_size() < 5:
+                    # Packet is full
+                    return False, i
                 logger.debug('Logging to raw memory %d, 0x%04X',
                              var.get_storage_and_fetch_byte(), var.address)
                 pk.data += struct.pack('<B',
